@@ -144,7 +144,7 @@ impl Cells {
         let v: Vec<String> = match self {
             Cells::I32(v) => v[from..to].iter().map(|x| format!("VInt {}", coq_z(*x as i128))).collect(),
             Cells::I64(v) => v[from..to].iter().map(|x| format!("VInt64 {}", coq_z(*x as i128))).collect(),
-            Cells::F64(v) => v[from..to].iter().map(|x| format!("VDouble {}", x.to_bits())).collect(),
+            Cells::F64(v) => v[from..to].iter().map(|x| format!("VD {} {}", x.to_bits() >> 32, x.to_bits() & 0xffff_ffff)).collect(),
         };
         format!("[{}]", v.join(";"))
     }
@@ -1029,6 +1029,64 @@ fn numty(c: &Case) -> &'static str {
     }
 }
 
+/// Runs the C calls of the listed cases in child processes (re-exec of this binary).  A child that dies or
+/// stops answering is blamed on the first case it has not answered; the rest is handed to a new child.
+fn run_children(a: &Args, so: &Path, mt: bool, list: Vec<usize>, out: &mut std::collections::HashMap<usize, CRes>) {
+    use std::io::BufRead as _;
+    let mut remaining: std::collections::VecDeque<usize> = list.into();
+    while !remaining.is_empty() {
+        let ids: Vec<String> = remaining.iter().map(|x| x.to_string()).collect();
+        let mut ch = std::process::Command::new(std::env::current_exe().unwrap())
+            .args(["--child", "--seed", &a.seed.to_string(), "--cases", &a.cases.to_string(), "--tier", &a.tier, "--out", &a.out])
+            .env("VERIF_FFI_SO", so)
+            .env("C17_LIST", ids.join(","))
+            .env("RAYON_NUM_THREADS", if mt { "4" } else { "1" })
+            .env("RUST_BACKTRACE", "0")
+            .stdout(std::process::Stdio::piped())
+            .stderr(std::process::Stdio::null())
+            .spawn()
+            .expect("re-exec");
+        let stdout = ch.stdout.take().unwrap();
+        let (tx, rx) = std::sync::mpsc::channel::<String>();
+        std::thread::spawn(move || {
+            for l in std::io::BufReader::new(stdout).lines().map_while(Result::ok) {
+                if tx.send(l).is_err() {
+                    break;
+                }
+            }
+        });
+        loop {
+            match rx.recv_timeout(Duration::from_secs(40)) {
+                Ok(l) => {
+                    if let Some(rest) = l.strip_prefix("RESULT ") {
+                        let mut it = rest.split(' ');
+                        let idx: usize = it.next().unwrap().parse().unwrap();
+                        let code: i64 = it.next().unwrap().parse().unwrap();
+                        let arr: Vec<usize> = it.next().unwrap_or("").split(',').filter(|x| !x.is_empty()).map(|x| x.parse().unwrap()).collect();
+                        out.insert(idx, CRes::Ret(code, arr));
+                        remaining.retain(|x| *x != idx);
+                    }
+                }
+                Err(std::sync::mpsc::RecvTimeoutError::Timeout) => {
+                    let _ = ch.kill();
+                    let _ = ch.wait();
+                    if let Some(i) = remaining.pop_front() {
+                        out.insert(i, CRes::Hang);
+                    }
+                    break;
+                }
+                Err(std::sync::mpsc::RecvTimeoutError::Disconnected) => {
+                    let st = ch.wait();
+                    if let Some(i) = remaining.pop_front() {
+                        out.insert(i, CRes::Abort(format!("the process running the C call died: {:?}", st)));
+                    }
+                    break;
+                }
+            }
+        }
+    }
+}
+
 /// First use of the library's global rayon pool (its size is read from the environment at that moment).
 fn warm_up(api: &Api) {
     let c = Case {
@@ -1114,22 +1172,27 @@ fn main() {
     let mut rng = Rng::new(a.seed);
 
     if child {
-        // run the C call of one case and print the result; the parent interprets an abnormal exit
-        let idx = a.only.expect("--only");
-        let mut case = None;
-        for i in 0..=idx {
+        // run the C calls of the listed cases, one RESULT line each (flushed); the parent interprets a missing
+        // line followed by an abnormal exit as an abort at that case
+        let list: Vec<usize> = std::env::var("C17_LIST").expect("C17_LIST").split(',').filter(|x| !x.is_empty()).map(|x| x.parse().unwrap()).collect();
+        let api = load(&PathBuf::from(std::env::var("VERIF_FFI_SO").expect("VERIF_FFI_SO")));
+        let last = *list.iter().max().unwrap_or(&0);
+        let mut cases = std::collections::HashMap::new();
+        for i in 0..=last {
             let mut r = rng.fork();
-            let c = gen_case(&mut r, &a.tier, slice_only);
-            if i == idx {
-                case = Some(c);
+            if list.contains(&i) {
+                cases.insert(i, gen_case(&mut r, &a.tier, slice_only));
             }
         }
-        let c = case.unwrap();
-        std::env::set_var("RAYON_NUM_THREADS", if c.mt { "4" } else { "1" });
-        let api = load(&PathBuf::from(std::env::var("VERIF_FFI_SO").expect("VERIF_FFI_SO")));
-        let mut arr = c.p0.clone();
-        let code = run_c(api, &c, &mut arr);
-        println!("RESULT {} {}", code, arr.iter().map(|x| x.to_string()).collect::<Vec<_>>().join(","));
+        for i in &list {
+            let c = &cases[i];
+            let mut arr = c.p0.clone();
+            let code = run_c(api, c, &mut arr);
+            use std::io::Write as _;
+            let mut o = std::io::stdout().lock();
+            writeln!(o, "RESULT {} {} {}", i, code, arr.iter().map(|x| x.to_string()).collect::<Vec<_>>().join(",")).unwrap();
+            o.flush().unwrap();
+        }
         return;
     }
 
@@ -1153,18 +1216,20 @@ fn main() {
 
     check_exports(api1, &a.out);
 
-    let mut w = CaseWriter::new(&a.out, "From Coupe Require Import Lib.Prelude Lib.Report Model.Ffi Run.RunC17.", "case17", "run17", 250);
-    let (mut hangs, mut ref_panics, mut aborts, mut children) = (0usize, 0usize, 0usize, 0usize);
+    let mut w = CaseWriter::new(&a.out, "From Coq Require Import Uint63.\nFrom Coupe Require Import Lib.Prelude Lib.Report Model.Ffi Run.RunC17.", "case17", "run17", 250);
+    let (mut hangs, mut ref_panics, mut aborts) = (0usize, 0usize, 0usize);
+    // (1) the cases and the Rust reference
+    let mut all: Vec<(usize, Case, RefRes)> = Vec::new();
     for idx in 0..a.cases {
         let mut r = rng.fork();
-        let c = gen_case(&mut r, &a.tier, slice_only);
         if let Some(o) = a.only {
             if o != idx {
                 continue;
             }
         }
-        // (1) Rust reference
+        let c = gen_case(&mut r, &a.tier, slice_only);
         let c1 = c.clone();
+        let t_case = std::time::Instant::now();
         let rr = guarded(if c.mt { 4 } else { 0 }, Duration::from_secs(20), move || {
             let mut arr = c1.p0.clone();
             let r = run_ref(&c1, &mut arr);
@@ -1183,51 +1248,31 @@ fn main() {
                 RefRes::Hang
             }
         };
-        // (2) C entry point
-        let cres = if matches!(rres, RefRes::Panic(_) | RefRes::Hang) {
-            children += 1;
-            let mut cmd = std::process::Command::new(std::env::current_exe().unwrap());
-            cmd.args(["--child", "--seed", &a.seed.to_string(), "--cases", &a.cases.to_string(), "--tier", &a.tier, "--out", &a.out, "--only", &idx.to_string()])
-                .env("VERIF_FFI_SO", &so)
-                .stdout(std::process::Stdio::piped())
-                .stderr(std::process::Stdio::null());
-            let mut ch = cmd.spawn().expect("re-exec");
-            let t0 = std::time::Instant::now();
-            let mut status = None;
-            while t0.elapsed() < Duration::from_secs(30) {
-                if let Some(s) = ch.try_wait().unwrap() {
-                    status = Some(s);
-                    break;
-                }
-                std::thread::sleep(Duration::from_millis(2));
+        if t_case.elapsed() > Duration::from_secs(2) {
+            eprintln!("slow reference run: case {} ({}) took {:?}", idx, c.family, t_case.elapsed());
+        }
+        all.push((idx, c, rres));
+        if hangs > 3 {
+            break;
+        }
+    }
+    // (2a) the C calls that may abort the process (the Rust reference panicked or hung): in child processes
+    let mut child_res: std::collections::HashMap<usize, CRes> = Default::default();
+    let mut children = 0usize;
+    for mt in [false, true] {
+        let list: Vec<usize> = all.iter().filter(|(_, c, r)| c.mt == mt && matches!(r, RefRes::Panic(_) | RefRes::Hang)).map(|(i, _, _)| *i).collect();
+        children += list.len();
+        run_children(&a, &so, mt, list, &mut child_res);
+    }
+    for (idx, c, rres) in all.into_iter() {
+        // (2b) the other C calls: in this process
+        let cres = if let Some(r) = child_res.remove(&idx) {
+            match &r {
+                CRes::Abort(_) => aborts += 1,
+                CRes::Hang => hangs += 1,
+                _ => {}
             }
-            match status {
-                None => {
-                    let _ = ch.kill();
-                    let _ = ch.wait();
-                    hangs += 1;
-                    CRes::Hang
-                }
-                Some(s) => {
-                    let mut out = String::new();
-                    use std::io::Read as _;
-                    let _ = ch.stdout.take().unwrap().read_to_string(&mut out);
-                    let line = out.lines().find(|l| l.starts_with("RESULT "));
-                    match (s.success(), line) {
-                        (true, Some(l)) => {
-                            let mut it = l.split(' ');
-                            it.next();
-                            let code: i64 = it.next().unwrap().parse().unwrap();
-                            let arr: Vec<usize> = it.next().unwrap_or("").split(',').filter(|x| !x.is_empty()).map(|x| x.parse().unwrap()).collect();
-                            CRes::Ret(code, arr)
-                        }
-                        _ => {
-                            aborts += 1;
-                            CRes::Abort(format!("{:?}", s))
-                        }
-                    }
-                }
-            }
+            r
         } else {
             let c2 = c.clone();
             let api = if c.mt { api4 } else { api1 };
@@ -1342,9 +1387,6 @@ fn main() {
         let key = format!("{}|{}|{:?}|{:?}|{:?}|{}|{}|{}|{}|{:?}", c.entry, c.dim, c.points, c.weights, c.adj, c.a, c.b, c.c, c.f.to_bits(), c.p0);
         let nontrivial = c.weights.len >= 2;
         w.push(coq, json, &key, nontrivial, &c.family);
-        if hangs > 3 {
-            break;
-        }
     }
     w.finish(&format!(
         "\"hangs\":{},\"rust_panics\":{},\"aborts\":{},\"child_runs\":{}",
